@@ -375,6 +375,16 @@ func grammarOne(c *fw.Case, st *state, r *rand.Rand, i int) {
 	if feature == "" {
 		feature = "base_symbols"
 	}
+	// whitespace kinds left in the minimal rendering (they survived normalisation, so they matter)
+	for _, w := range []struct{ ch, name string }{{"\t", "tab"}, {"\n", "newline"}, {"\r", "cr"}} {
+		if strings.Contains(mt, w.ch) {
+			feature += "+" + w.name
+		}
+	}
+	if strings.ContainsAny(mt, "[{") {
+		feature += "+altbrackets"
+	}
+
 	if dir != nil {
 		feature += "+dir"
 	}
@@ -463,19 +473,32 @@ func simplify(s *condx.Styled, bad func(*condx.Styled) bool) *condx.Styled {
 		}
 		return x.C.Op
 	}
-	for _, x := range nodes {
-		saved := *x
-		x.Op, x.WsL, x.WsR, x.PadL, x.PadR, x.Force, x.Br, x.UpperVal, x.NotNoLead, x.NotNoTrail = base(x), " ", " ", "", "", false, 0, false, false, false
-		if x.C.Kind == gen.CNot {
+	normWs := func(x *condx.Styled) {
+		x.WsL, x.WsR, x.PadL, x.PadR, x.Force, x.Br, x.UpperVal, x.NotNoLead, x.NotNoTrail = " ", " ", "", "", false, 0, false, false, false
+		if x.C.Kind == gen.CNot && !condx.IsWord(x.Op) {
 			x.WsL = ""
 		}
-		if bad(s) {
-			continue
+	}
+	// pass 1: whitespace, brackets, case -> plain, one attribute at a time (keeping the spelling)
+	for _, x := range nodes {
+		plain := *x
+		normWs(&plain)
+		for _, set := range []func(){
+			func() { x.WsL = plain.WsL }, func() { x.WsR = plain.WsR }, func() { x.PadL = plain.PadL }, func() { x.PadR = plain.PadR },
+			func() { x.Force = false }, func() { x.Br = 0 }, func() { x.UpperVal = false }, func() { x.NotNoLead = false }, func() { x.NotNoTrail = false },
+		} {
+			saved := *x
+			set()
+			if *x != saved && !bad(s) {
+				*x = saved
+			}
 		}
-		*x = saved
-		// keep the spelling, normalise the rest
-		x.WsL, x.WsR, x.PadL, x.PadR, x.Force, x.Br, x.UpperVal = " ", " ", "", "", false, 0, false
-		if x.C.Kind == gen.CNot && !condx.IsWord(x.Op) {
+	}
+	// pass 2: spelling -> base symbol
+	for _, x := range nodes {
+		saved := *x
+		x.Op = base(x)
+		if x.C.Kind == gen.CNot {
 			x.WsL = ""
 		}
 		if !bad(s) {
